@@ -86,6 +86,31 @@ CHECKS = {
              "group of every conformation and the average, and that table rows, stars-free values and summary of the .pka "
              "file render exactly those numbers.",
         design="5/C02"),
+    "C04": dict(
+        engine="Geometry",
+        technique='TLA+ lattice-motion spec (24 rotations, translations; instantiates CellList) model-checked by TLC; TLC-generated motions applied exactly to real structures; run pairs trace-validated by TLC (SameHeavy, SameBonds, SameAll, HydEquivariant)',
+        text='TLC checks distance/bond/bridge invariance for three atoms around cell boundaries under all 24 proper lattice rotations x translation classes and emits the motions; the harness applies them in exact integer arithmetic to real structures (hetero structures: clause a; amino-acid structures: clauses a, b with supplied hydrogens, c hydrogen equivariance within 0.001 A) and TLC compares the mapped-back records of moved and original runs; exact knife-edge inputs are excluded by an integer test.',
+        design="5/C04"),
+    "C05": dict(
+        engine="Iterative",
+        technique='TLA+ iterative-solver spec (fixed point, cluster independence) model-checked by TLC; TLC-generated configurations replayed into iterative.add_determinants; unions of real structures vs parts trace-validated by TLC (Part)',
+        text="TLC checks for every configuration of two clusters (charges, pKa, hb, coulomb values) that a converged cluster is a fixed point and that a cluster's determinants do not depend on the other cluster under the global convergence test and the cap of 10; every configuration is replayed through the real solver alone and jointly; unions of real structures at separations 25.001 A .. 9000 A x 7 directions x both orders are run and TLC checks every group of each part equals the part run alone; >1000 A unions must not fail.",
+        design="5/C05"),
+    "C06": dict(
+        engine="Identity",
+        technique='TLA+ relabelling spec (chain maps, shifts, sequential renumbering, twins; key faithfulness) model-checked by TLC; TLC-generated descriptors applied to real structures; run pairs trace-validated by TLC (SameUpToLabels); known finding attributed by diagnostic patch',
+        text='TLC enumerates all 320 relabelling descriptors, checks they keep labellings valid and which label-derived keys stay faithful; each descriptor is applied to real multi-chain structures by a fixed-column rewrite and TLC compares every group, determinant (matched by file position) and conformation of relabelled and baseline runs.',
+        design="5/C06"),
+    "C07": dict(
+        engine="PdbReader",
+        technique='TLA+ reader spec (ignorable records never change the yielded atoms) model-checked by TLC; TLC-generated sequences replayed into the reader; edited/original run pairs trace-validated by TLC (SameAll, TextSame)',
+        text='TLC checks on all record sequences that removing OTHER records and ignorable residues never changes what the reader yields (with and without keep-protons); full runs on inputs edited by inserting ignorable records/residues anywhere, hydrogens inside residues, rewritten serial (incl. hybrid-36), occupancy, B-factor, element and charge columns, --protonate-all, and own hydrogens fed back with -k are compared with the original by TLC, including the .pka text.',
+        design="5/C07"),
+    "C13": dict(
+        engine="PdbReader",
+        technique='TLA+ reader spec (reader(chains=S) = reader(Filter(s,S))) model-checked by TLC; TLC-generated sequences x chain subsets replayed into the reader; -c runs vs edited-file runs trace-validated by TLC (Part, TextSame)',
+        text='TLC checks for all record sequences and chain subsets that selecting chains equals filtering the records, every case is replayed through the real reader, and full runs with -c (blank ids, hetero groups with own id, chains without TER) are compared by TLC with runs on the edited file, including the .pka text.',
+        design="5/C13"),
 }
 
 NOT_APPLICABLE = {}
